@@ -206,6 +206,11 @@ pub fn check_run(cfg: &Cfg, run: &Run, cases: &mut Cases, rep: &mut Report) {
         }
         if ended { break; }
     }
+    // "... or produce invalid draws afterwards": whatever the fault, the sampler never asks for the density at a non-finite position
+    if let Some(bad) = run.log.iter().find(|e| e.pos.iter().any(|x| !x.is_finite())) {
+        rep.violation("c05.nonfinite_position_evaluated", &format!("evaluation {} asked for the density at the non-finite position {:?} (faults {:?})", bad.idx, &bad.pos[..bad.pos.len().min(3)], cfg.faults), replay.clone());
+        return;
+    }
     if !ended && run.calls.len() as u64 != 1 + cfg.num_tune + cfg.num_draws {
         rep.violation("c05.incomplete", &format!("{} calls recorded for {} draws", run.calls.len(), cfg.num_tune + cfg.num_draws), replay);
     }
